@@ -14,6 +14,8 @@ import (
 	"encoding/json"
 	"math/big"
 	"sync"
+
+	zrsa "github.com/zmap/zcrypto/rsa"
 )
 
 //go:embed pool.json
@@ -141,4 +143,14 @@ func (p *Pool) ECByCurve(name string) []*ecdsa.PrivateKey {
 		}
 	}
 	return out
+}
+
+// Z returns the key as a zcrypto/rsa private key (big.Int exponent) with precomputed values.
+func (k RSAKey) Z() *zrsa.PrivateKey {
+	pk := &zrsa.PrivateKey{PublicKey: zrsa.PublicKey{N: new(big.Int).Set(k.N), E: big.NewInt(int64(k.E))}, D: new(big.Int).Set(k.D)}
+	for _, q := range k.Primes {
+		pk.Primes = append(pk.Primes, new(big.Int).Set(q))
+	}
+	pk.Precompute()
+	return pk
 }
